@@ -227,8 +227,8 @@ def gen_cases_extra(rng, tier, gen_slice, val):
                 bad = rng.random() < 0.08
                 which = rng.randrange(2)
                 lists_ok = kind == "sptenmat_set"
-                # open finding C04-N14 (sptenmat + repeated index): only in its own, attributed profile
-                rep = kind == "tenmat_rw" or q % 9 == 4
+                # C04-N14 (sptenmat + repeated index) is repaired in /repo (8f8b86e): an ordinary input class
+                rep = True
                 e0 = _gen_mat_elem(rng, r, gen_slice, True, bad and which == 0, neg=True, rep=rep)
                 e1 = _gen_mat_elem(rng, c, gen_slice, lists_ok or e0[0] != "l", bad and which == 1, neg=True, rep=rep)
                 key = ["region", [e0, e1]]
@@ -247,8 +247,8 @@ def gen_cases_extra(rng, tier, gen_slice, val):
                         npos = len(U.resolve_set((r, c), key, ["scalar", 1])[1])
                     except U.Inadmissible:
                         npos = 0
-                if kind == "sptenmat_set" and U.key_repeats(key):
-                    profile = "C04-N14"
+                if kind == "sptenmat_set" and U.key_repeats(key) and profile == "plain":
+                    profile = "repeated"
                 if npos and rng.random() < 0.5:
                     ops.append(["set", key, ["values", [val(rng, zero_p) for _ in range(npos)]]])
                 else:
@@ -565,12 +565,7 @@ def oracle_extra(c, o):
 # ------------------------------------------------------------------------------------------------
 # findings on sptenmat.__setitem__ (new in wave 2)
 # ------------------------------------------------------------------------------------------------
-def trig_n14(case):
-    """sptenmat assignment through a key list that repeats an index"""
-    return case.op == "sptenmat_set" and any(op[0] == "set" and U.key_repeats(op[1]) for op in case.args["ops"])
-
-
-TRIGGERS_EXTRA = {"C04-N14": trig_n14}        # C04-N08 / C04-N09 are repaired in /repo: their input classes are ordinary, their witnesses regression cases
+TRIGGERS_EXTRA = {}        # C04-N08 / C04-N09 / C04-N14 are repaired in /repo: their input classes are ordinary, their witnesses regression cases
 
 _SPT = {"tshape": [2, 2, 2], "rdims": [0], "cdims": [1, 2], "subs": [[0, 0, 0], [1, 0, 1], [1, 1, 1]], "vals": [1, 3, 2]}
 REGRESSION_EXTRA = {
@@ -588,4 +583,6 @@ def _witness(args):
 
 
 WITNESS_N14 = dict(_SPT, ops=[["set", ["region", [["l", [1, 1]], ["i", 1]]], ["values", [6, 8]]]])
-WITNESSES_EXTRA = {"C04-N14": _witness(WITNESS_N14)}
+REGRESSION_EXTRA["C04-N14"] = WITNESS_N14
+REGRESSION_EXTRA["C04-N14b"] = dict(_SPT, ops=[["set", ["region", [["s", 0, 2, None], ["l", [1, 1]]]], ["scalar", 6]]])
+WITNESSES_EXTRA = {}
